@@ -792,3 +792,68 @@ func OnlyHeaderExits(body map[*ssa.BasicBlock]bool) (bool, []Edge) {
 	}
 	return len(bad) == 0 && h != nil, bad
 }
+
+// LoopBypass decides whether, inside the natural loop body, control can get
+// from the start of an iteration back to the loop header without passing
+// through a block of `through` and without crossing an `allowed` edge.
+// Paths that leave the loop are not bypasses.
+func LoopBypass(body map[*ssa.BasicBlock]bool, through map[*ssa.BasicBlock]bool, allowed []Edge, posf Posf) (bool, []string) {
+	h := LoopHeader(body)
+	if h == nil {
+		return true, []string{"no loop header"}
+	}
+	av := map[Edge]bool{}
+	for _, e := range allowed {
+		av[e] = true
+	}
+	seen := map[*ssa.BasicBlock]bool{}
+	parent := map[*ssa.BasicBlock]*ssa.BasicBlock{}
+	var q []*ssa.BasicBlock
+	for i, s := range h.Succs {
+		if body[s] && s != h && !av[Edge{h, i}] {
+			seen[s] = true
+			parent[s] = h
+			q = append(q, s)
+		}
+	}
+	for len(q) > 0 {
+		b := q[0]
+		q = q[1:]
+		if through[b] {
+			continue
+		}
+		for i, s := range b.Succs {
+			if av[Edge{b, i}] || !body[s] {
+				continue
+			}
+			if s == h {
+				w := witness(parent, b, posf)
+				return true, append(w, "-> back to loop header b"+fmt.Sprint(h.Index))
+			}
+			if !seen[s] {
+				seen[s] = true
+				parent[s] = b
+				q = append(q, s)
+			}
+		}
+	}
+	return false, nil
+}
+
+// BackEdges lists the loop back edges of fn (t->h with h dominating t).
+func BackEdges(fn *ssa.Function) []Edge {
+	var out []Edge
+	for _, t := range fn.Blocks {
+		for i, h := range t.Succs {
+			if h.Dominates(t) {
+				out = append(out, Edge{t, i})
+			}
+		}
+	}
+	return out
+}
+
+// ReachesInIteration: a reaches b without taking a loop back edge.
+func ReachesInIteration(a, b ssa.Instruction) bool {
+	return InstrReaches(a, b, BackEdges(a.Parent()))
+}
